@@ -83,8 +83,13 @@ def run(out, tier):
     out.assumptions = ["records are projected by regular expressions / the JSON parser (level token, span tokens s<k>x in textual order, message tokens m<n>)",
                        "events are dispatched from hand-made callsites so that field values can be chosen at run time"]
     seen = set()
+    f33 = [f for f in vlib.known_findings("C13") if f["id"] == "F33"]
     for b, pos, rec in sorted(found["BAD"], key=lambda x: (x[0], x[1])):
         if b in seen:
+            continue
+        # F33: an exit that closes the span reaches the fmt subscriber's on_exit after the span is gone
+        if f33 and rec.get("op") == "exit" and rec.get("closing") and "Span not found" in str(rec.get("panicked", "")):
+            out.known_finding("F33", f33[0]["what"])
             continue
         seen.add(b)
         raw = [c for c in lines_of(lines, b, pos)]
